@@ -136,7 +136,18 @@ impl<'a> ExecutionEngine<'a> {
     pub fn execute(&mut self, line: String, config: &ExecutionConfig) -> ExecutionResult<ExecutionOutput> {
         match self.statement {
             Statement::Select(select_statement) => {
-                let output = self.execute_select(&select_statement, line)?;
+                if let Some(limit) = select_statement.limit {
+                    if self.num_output_rows >= limit {
+                        return Ok(ExecutionOutput::empty().with_reached_limit());
+                    }
+                }
+
+                let mut output = self.execute_select(&select_statement, line)?;
+                if let (Some(limit), Some(row)) = (select_statement.limit, output.result_row.as_mut()) {
+                    // A line can produce several rows when joining
+                    row.data.truncate(limit.saturating_sub(self.num_output_rows));
+                }
+
                 let output = self.update_limit(select_statement.limit, output);
                 Ok(output)
             }
@@ -314,7 +325,7 @@ impl<'a> ExecutionEngine<'a> {
 
     fn update_limit(&mut self, limit: Option<usize>, mut output: ExecutionOutput) -> ExecutionOutput {
         if let Some(row) = output.result_row.as_ref() {
-            self.num_output_rows += row.data.iter().filter(|row| row.any_result()).count();
+            self.num_output_rows += row.data.len();
         }
 
         if let Some(limit) = limit {
